@@ -121,19 +121,92 @@ Proof. vm_compute. repeat split; reflexivity. Qed.
 (* ================= aggregates and release ================= *)
 From Exo Require Import Ledger.AggInv Ledger.NonNeg.
 
-Definition inv_all (s : st) : Prop := idx_inv s /\ J s /\ nn s.
+(* The release theorems of C03 are about the assets that have staker rows. A completed native-token undelegation is paid
+   from the bank escrow instead; that it can always be paid is C01's escrow theorem. [lst_only]: no native-token record. *)
+Definition rec_lst (r : urec) : bool := negb (is_native (ur_asset r)).
+Definition lst_only (s : st) : Prop := allv rec_lst (ur s) = true.
+Definition lst_op (o : op) : bool :=
+  match o with Undelegate _ a _ _ _ _ => negb (is_native a) | _ => true end.
 
-Lemma run_inv_all ops s : inv_all s -> hist_ok s ops = true -> inv_all (run ops s).
+Definition inv_all (s : st) : Prop := idx_inv s /\ J s /\ nn s /\ lst_only s.
+
+Lemma set_record_lst s r s' : lst_only s -> rec_lst r = true -> set_record s r = Some s' -> lst_only s'.
 Proof.
-  intros (I & Hj & N) H. split; [|split].
+  unfold lst_only, set_record. intros L Hr H. destruct (ur_cn r <? height s); [discriminate|]. inversion H; subst; clear H.
+  destruct (sget (ur s) (rkey r)); simpl; apply allv_sset; assumption.
+Qed.
+
+Lemma process_lst s r : lst_only s -> sget (ur s) (rkey r) = Some r -> lst_only (process s r).
+Proof.
+  intros L G. assert (rec_lst r = true) as Hr by (eapply allv_sget; eauto).
+  unfold process. destruct (0 <? hold_count s (rkey r)).
+  - set (r' := mkUR _ _ _ _ _ (height s + 1) _ _ _).
+    destruct (set_record (del_record s r) r') as [s2|] eqn:E; [|assumption].
+    eapply (set_record_lst (del_record s r) r'); [|exact Hr|exact E].
+    unfold lst_only, del_record. simpl. apply allv_sdel; assumption.
+  - destruct (upd_dg s _ 0 (- ur_amt r)) as [[s1 z]|] eqn:E1; [|assumption].
+    destruct (pay_staker s1 r) as [s2|] eqn:E2; [|assumption].
+    destruct (upd_oa s2 _ 0 (- ur_amt r) 0 0) as [s3|] eqn:E3; [|assumption].
+    apply upd_dg_frame in E1. apply pay_frame in E2. apply upd_oa_frame in E3.
+    destruct E1 as (u1 & _), E2 as (u2 & _), E3 as (u3 & _).
+    unfold lst_only, del_record. simpl. rewrite u3, u2, u1. apply allv_sdel; assumption.
+Qed.
+
+Lemma step_lst s o : idx_inv s -> lst_only s -> wf_op o = true -> lst_op o = true -> lst_only (fst (step s o)).
+Proof.
+  intros I L Wf Lo. unfold lst_only in *. destruct o; simpl.
+  - destruct (deposit s staker asset x) as [s'|] eqn:E; simpl; [|exact L]. apply deposit_frame in E. destruct E as (-> & _). exact L.
+  - destruct (withdraw s staker asset x) as [s'|] eqn:E; simpl; [|exact L]. apply withdraw_frame in E. destruct E as (-> & _). exact L.
+  - destruct (delegate s staker asset operator x) as [s'|] eqn:E; simpl; [|exact L]. apply delegate_frame in E. destruct E as (-> & _). exact L.
+  - destruct (undelegate s staker asset operator x nonce tx) as [[s' r]|] eqn:E; simpl; [|exact L].
+    apply undelegate_shape in E. destruct E as (s4 & s5 & tok & U4 & P4 & H4 & -> & E5 & U' & P' & H').
+    rewrite U'. refine (set_record_lst s4 _ s5 _ _ E5); [unfold lst_only; rewrite U4; exact L | exact Lo].
+  - simpl in Wf. apply andb_prop in Wf. destruct Wf as [_ Nn]. unfold genesis_load.
+    destruct ((ur_amt r <=? 0) || negb (ur_act r =? ur_amt r)); [exact L|].
+    destruct (deposit s (ur_staker r) (ur_asset r) (ur_amt r)) as [s1|] eqn:E0; [|exact L].
+    destruct (upd_sa s1 _ 0 (- ur_amt r) (ur_amt r)) as [s2|] eqn:E1; [|exact L].
+    destruct (upd_oa s2 _ 0 (ur_amt r) 0 0) as [s3|] eqn:E2; [|exact L].
+    destruct (upd_dg s3 _ 0 (ur_amt r)) as [[s4 z]|] eqn:E3; [|exact L].
+    destruct (set_record s4 r) as [s5|] eqn:E4; [|exact L]. simpl.
+    apply deposit_frame in E0. apply upd_sa_frame in E1. apply upd_oa_frame in E2. apply upd_dg_frame in E3.
+    destruct E0 as (u0 & _), E1 as (u1 & _), E2 as (u2 & _), E3 as (u3 & _).
+    apply (set_record_lst s4 r s5); [unfold lst_only; rewrite u3, u2, u1, u0; exact L | exact Nn | exact E4].
+  - destruct prop as [p|]; simpl; [|exact L].
+    destruct (slash s operator eh p) as [s'|] eqn:E; simpl; [|exact L].
+    unfold slash in E. destruct ((p <? 0) || (p >? P)); [discriminate|].
+    destruct (slash_pools operator p (oa s) (dg s) (sl s)) as [[[o' d'] l'] ev2].
+    destruct (eh <=? height s).
+    + pose proof (slash_records_map operator eh p (ur s)) as M.
+      destruct (slash_records operator eh p (ur s)) as [u' ev1]. simpl in M. subst u'.
+      inversion E; subst; clear E. simpl. apply allv_map_vals; [exact L|]. intros k v Hv.
+      unfold rec_lst, slash_rec_fun in *. destruct (_ && _); [|exact Hv].
+      pose proof (slash_record_keys p v) as (_ & _ & _ & _ & _ & A & _). rewrite A. exact Hv.
+    + inversion E; subst; clear E. exact L.
+  - pose proof (hold_inc_frame s rk) as (-> & _). exact L.
+  - pose proof (hold_dec_frame s rk) as (-> & _). exact L.
+  - destruct (end_block_idx lst_only (fun s0 r _ G L0 => process_lst s0 r L0 G) (fun s0 h L0 => L0) s I L) as (_ & Q & _). exact Q.
+  - discriminate.
+Qed.
+
+Lemma run_lst ops : forall s, idx_inv s -> lst_only s -> hist_ok s ops = true -> forallb lst_op ops = true -> lst_only (run ops s).
+Proof.
+  induction ops as [|o r IH]; intros s I L H F; simpl; [assumption|].
+  simpl in H, F. rewrite !andb_true_iff in H. destruct H as [[Wf Fr] Hr]. apply andb_prop in F. destruct F as [Lo Fr'].
+  apply IH; [apply step_idx; assumption | apply step_lst; assumption | assumption | assumption].
+Qed.
+
+Lemma run_inv_all ops s : inv_all s -> hist_ok s ops = true -> forallb lst_op ops = true -> inv_all (run ops s).
+Proof.
+  intros (I & Hj & N & L) H F. split; [|split; [|split]].
   - apply run_idx; assumption.
   - apply run_J; assumption.
   - apply run_nn; assumption.
+  - apply run_lst; assumption.
 Qed.
 
 Lemma empty_inv_all h o v assets : 0 <= h -> inv_all (empty_st h o v assets).
 Proof.
-  intro Hh. split; [|split; [apply empty_J|]].
+  intro Hh. split; [|split; [apply empty_J|split; [|reflexivity]]].
   - unfold idx_inv, empty_st. simpl. repeat split; try apply sorted_nil; try assumption; intros k r G; discriminate.
   - unfold nn, empty_st. simpl. repeat split; try reflexivity.
     assert (forall (l : list (string * Z)) (acc : store Z), allv (fun t => 0 <=? t) acc = true ->
@@ -156,10 +229,10 @@ Proof.
     destruct (A k) as (_ & _ & A3). unfold dg_oldS in A3. rewrite In0 in A3. apply Z.eqb_eq. exact A3.
 Qed.
 
-Lemma aggregates_all : forall ops s0, inv_all s0 -> hist_ok s0 ops = true ->
+Lemma aggregates_all : forall ops s0, idx_inv s0 -> J s0 -> hist_ok s0 ops = true ->
   agg_inv (run ops s0) /\ aggregates_rows_d (dump_of (run ops s0)) = true.
 Proof.
-  intros ops s0 Hi H. destruct (run_inv_all ops s0 Hi H) as (_ & Hj & _). split; [apply Hj | apply agg_rows_bool; exact Hj].
+  intros ops s0 I0 J0 H. pose proof (run_J ops s0 I0 J0 H) as Hj. split; [apply Hj | apply agg_rows_bool; exact Hj].
 Qed.
 
 (* ---- one unheld due record is released: exact effect ---- *)
@@ -183,6 +256,19 @@ Proof.
   rewrite E in L. lia.
 Qed.
 
+Lemma amt_le_pend_sa u rk r : allv ur_nn u = true -> sget u rk = Some r -> amt_sa r <= pend_sa (ksa r) u.
+Proof.
+  intros N G.
+  assert (forall k v, 0 <= (fun (_ : string) x => if allv ur_nn u then if_eq (ksa x) (ksa r) (Z.max 0 (amt_sa x)) else 0) k v) as Hg.
+  { intros k v. rewrite N. unfold if_eq. destruct (String.eqb _ _); lia. }
+  pose proof (ssumk_ge_elem _ u rk r Hg G) as L. rewrite N in L. unfold if_eq in L at 1. rewrite String.eqb_refl in L.
+  assert (ssumk (fun _ x => if_eq (ksa x) (ksa r) (Z.max 0 (amt_sa x))) u = pend_sa (ksa r) u) as E.
+  { clear L Hg G. unfold pend_sa, ssumk, allv in *. induction u as [|[k v] rest IH]; simpl in *; [reflexivity|].
+    apply andb_prop in N. destruct N as [N1 N2]. rewrite (IH N2). unfold ur_nn in N1. rewrite andb_true_iff, !Z.leb_le in N1.
+    unfold amt_sa, if_eq. fold (ksa v). destruct (String.eqb (ksa v) (ksa r)); destruct (is_native (ur_asset v)); lia. }
+  rewrite E in L. lia.
+Qed.
+
 Definition released_effect (s s' : st) (r : urec) : Prop :=
   sget (ur s') (rkey r) = None /\ ur s' = sdel (ur s) (rkey r) /\
   sidx s' = sdel (sidx s) (skey r) /\ pidx s' = sdel (pidx s) (pkey r) /\
@@ -194,12 +280,14 @@ Definition released_effect (s s' : st) (r : urec) : Prop :=
 Lemma process_release s r : inv_all s -> sget (ur s) (rkey r) = Some r -> hold_count s (rkey r) = 0 ->
   released_effect s (process s r) r.
 Proof.
-  intros (I & [S A] & N) G H0. pose proof I as (Su & _). pose proof N as (Nsa & Noa & _ & Ndg & Nur & _).
+  intros (I & [S A] & N & Lst) G H0. pose proof I as (Su & _). pose proof N as (Nsa & Noa & _ & Ndg & Nur & _).
+  assert (is_native (ur_asset r) = false) as Nat by (apply negb_true_iff; exact (allv_sget _ _ _ _ Lst G)).
   pose proof (allv_sget _ _ _ _ Nur G) as Nr. unfold ur_nn in Nr. rewrite andb_true_iff, !Z.leb_le in Nr.
   destruct (A (ksa r)) as (A1 & _ & _). destruct (A (koa r)) as (_ & A2 & _). destruct (A (kdg r)) as (_ & _ & A3).
   pose proof (amt_le_pend ksa (ur s) _ r Nur G) as L1. pose proof (amt_le_pend koa (ur s) _ r Nur G) as L2.
   pose proof (amt_le_pend kdg (ur s) _ r Nur G) as L3.
-  change (ur_amt r <= pend_sa (ksa r) (ur s)) in L1. change (ur_amt r <= pend_oa (koa r) (ur s)) in L2.
+  assert (forall u, ssumk (fun _ x => if_eq (ksa x) (ksa r) (ur_amt x)) u >= 0 -> True) as _ by auto.
+  clear L1. pose proof (amt_le_pend_sa (ur s) _ r Nur G) as L1. unfold amt_sa in L1 at 1. rewrite Nat in L1. change (ur_amt r <= pend_oa (koa r) (ur s)) in L2.
   change (ur_amt r <= pend_dg (kdg r) (ur s)) in L3.
   pose proof (sa_old_nn s (ksa r) Nsa) as Na. pose proof (oa_old_nn s (koa r) Noa) as No. pose proof (dg_old_nn s (kdg r) Ndg) as Nd.
   unfold sa_nn in Na. unfold oa_nn in No. unfold dg_nn in Nd. rewrite !andb_true_iff, !Z.leb_le in Na, No, Nd.
@@ -207,7 +295,7 @@ Proof.
   fold (kdg r) (ksa r) (koa r).
   unfold upd_dg. fold (dg_oldS (dg s) (kdg r)). simpl.
   repeat (rewrite upd_val_ok by lia).
-  unfold upd_sa. simpl. fold (sa_oldS (sa s) (ksa r)).
+  unfold pay_staker. simpl. rewrite Nat. unfold upd_sa. simpl. fold (ksa r). fold (sa_oldS (sa s) (ksa r)).
   repeat (rewrite upd_val_ok by lia).
   unfold upd_oa. simpl. fold (oa_oldS (oa s) (koa r)).
   repeat (rewrite upd_val_ok by lia).
@@ -232,19 +320,19 @@ Qed.
 Definition outcome (s0 : st) (r : urec) (o : option urec) : Prop :=
   (hold_count s0 (rkey r) = 0 -> o = None) /\ (0 < hold_count s0 (rkey r) -> o = Some (with_cn r (height s0 + 1))).
 
-Definition loopQ (s0 s : st) : Prop := J s /\ nn s /\ hold s = hold s0 /\ height s = height s0.
+Definition loopQ (s0 s : st) : Prop := J s /\ nn s /\ hold s = hold s0 /\ height s = height s0 /\ lst_only s.
 
 Lemma loopQ_process s0 s r : idx_inv s -> sget (ur s) (rkey r) = Some r -> loopQ s0 s -> loopQ s0 (process s r).
 Proof.
-  intros I G (Hj & N & Hh & Hg). destruct (process_J s r I Hj G) as [J' H']. destruct (process_idx s r I G) as (_ & _ & Hg').
-  split; [exact J'|]. split; [apply process_nn; assumption|]. split; congruence.
+  intros I G (Hj & N & Hh & Hg & L). destruct (process_J s r I Hj G) as [J' H']. destruct (process_idx s r I G) as (_ & _ & Hg').
+  split; [exact J'|]. split; [apply process_nn; assumption|]. split; [congruence|]. split; [congruence|apply process_lst; assumption].
 Qed.
 
 Lemma process_outcome s0 s r : idx_inv s -> sget (ur s) (rkey r) = Some r -> loopQ s0 s ->
   outcome s0 r (sget (ur (process s r)) (rkey r)).
 Proof.
-  intros I G (Hj & N & Hh & Hg). unfold outcome, hold_count. rewrite <- Hh, <- Hg. fold (hold_count s (rkey r)). split; intro H.
-  - destruct (process_release s r (conj I (conj Hj N)) G H) as (A & _). exact A.
+  intros I G (Hj & N & Hh & Hg & L). unfold outcome, hold_count. rewrite <- Hh, <- Hg. fold (hold_count s (rkey r)). split; intro H.
+  - destruct (process_release s r (conj I (conj Hj (conj N L))) G H) as (A & _). exact A.
   - destruct (process_requeue s r I G H) as (A & _). exact A.
 Qed.
 
@@ -285,7 +373,7 @@ Lemma release_at_end_block s rk r : inv_all s -> sget (ur s) rk = Some r -> ur_c
   sget (pidx s) (pkey r) = Some rk ->
   outcome s r (sget (ur (end_block s)) rk).
 Proof.
-  intros (I & Hj & N) G Cn Px. pose proof I as (Su & Sp & K & Ip & W & Hh).
+  intros (I & Hj & N & Lst) G Cn Px. pose proof I as (Su & Sp & K & Ip & W & Hh).
   pose proof (K _ _ G) as Rk. subst rk.
   assert (In (rkey r) (due_keys (height s) (pidx s))) as InDue.
   { unfold due_keys, prefix_iter. apply in_map_iff. exists (pkey r, rkey r). split; [reflexivity|].
@@ -299,11 +387,11 @@ Proof.
   { destruct (forall2_in _ _ _ _ (fetch_spec _ _ _ F) InDue) as (b & Inb & Pb). rewrite G in Pb. inversion Pb; subst. exact Inb. }
   unfold end_block. rewrite F. simpl.
   apply (process_loop_outcome s recs s I); try assumption.
-  split; [exact Hj|]. split; [exact N|]. split; reflexivity.
+  split; [exact Hj|]. split; [exact N|]. split; [reflexivity|]. split; [reflexivity|exact Lst].
 Qed.
 
-(* ---- acceptance is refutable after deep slashes: a witness history (replayed on the real keepers by the directed
-        scenario tagged kf-C03-accept-deep-slash) ---- *)
+(* ---- the deep-slash state in which the pre-repair share check rejected a request for exactly the reported position
+        (regression scenario regress-C03-accept-deep-slash replays it on the real keepers) ---- *)
 Definition accept_s0 : st := empty_st 4 ["o2"] [] ["a0"].
 Definition accept_ops : list op :=
   [Deposit "s0" "a0" 548170; Delegate "s0" "a0" "o2" 548170; Deposit "s1" "a0" 25; Delegate "s1" "a0" "o2" 25;
@@ -314,6 +402,10 @@ Lemma accept_witness :
   let s := run accept_ops accept_s0 in
   hist_ok accept_s0 accept_ops = true /\
   position_d (dump_of s) "s2" "a0" "o2" = 56 /\
-  snd (step s (Undelegate "s2" "a0" "o2" 56 9 "t9")) = RErr /\
-  snd (step s (Undelegate "s2" "a0" "o2" 55 9 "t9")) = ROk.
+  snd (step s (Undelegate "s2" "a0" "o2" 56 9 "t9")) = ROk /\
+  option_map ur_amt (sget (ur (fst (step s (Undelegate "s2" "a0" "o2" 56 9 "t9")))) "o2/0x4/0x9/t9") = Some 56 /\
+  snd (step s (Undelegate "s2" "a0" "o2" 57 9 "t9")) = RErr /\
+  option_map dg_sh (sget (dg s) "s2/a0/o2") = Some 470042106230190932613 /\
+  option_map oa_tsh (sget (oa s) "o2/a0") = Some 548665042106230190932613 /\
+  option_map oa_amt (sget (oa s) "o2/a0") = Some 65367.
 Proof. vm_compute. repeat split; reflexivity. Qed.
